@@ -6,6 +6,9 @@ HERE = os.path.dirname(os.path.dirname(os.path.abspath(__file__)))
 
 # id -> (technique, level text, level note, design ref)
 CLAIMED = {
+ "C17": ("who-may-call rules on read primitives, E7 term for the private buffer, def-use/phi provenance of Target and the argument string with edge-fact sets, relational bounds, deadline typestate, reply-before-failure-return pairing over go/ssa",
+         "Decides: all input arrives through ReadByte/io.ReadFull into private buffers (segmentation independence); Target = host of the received address-type arm + big-endian port; argument string = username [+ password unless single NUL], parsed bytewise, stored in Args; all reader indices in bounds; 5 s deadline armed/disarmed; flush with unread input fails; every failure path replies with the proper code. The argument parser's input/output relation (escape automaton) is not decided.",
+         "go/types+go/ssa faithful; bufio/io.ReadFull semantics; contract table", "DESIGN.md section 4, C17"),
  "C16": ("relational bounds proof of the body size, slice-identity and phi/def-use rules for the carry-over, single-writer/who-calls ownership, entry-block typestate for the closed check, value-origin (freshness) analysis over go/ssa",
          "Decides: body = sndBuf[:wrSz] with wrSz <= 65536 proved; carry-over is exactly sndBuf[wrSz:] and is prepended next time, queued writes are appended in arrival order; one session id; RoundTrip only in roundTrip, called synchronously from the single worker; Read and Write test the close signal first and fail when closed; responses and enqueued writes are private allocations; the worker leaves its loop on close. Stream integrity under all timings is a scheduling property and is not decided.",
          "go/types+go/ssa faithful; io.ReadAll allocates; contract table", "DESIGN.md section 4, C16"),
